@@ -118,6 +118,13 @@ class OidWorld:
             ops.append(('pack',))
         if self.kind in ('DMM', 'DFM'):
             ops.append(('store-aimed',))
+            # the adversary picks the allocator's next random draw: an id
+            # that was issued but never committed, or one that is stored
+            if self.issued - set(self.stored):
+                ops.append(('aim', 'issued'))
+            if self.stored:
+                ops.append(('aim', 'stored'))
+        ops.append(('store-issued-abort',))
         ops.append(('dbadd',))
         return ops
 
@@ -143,6 +150,21 @@ class OidWorld:
             oid = free[-1]
             r = self._commit(s, [(oid, self.stored.get(oid, Z64))])
             return 'stored' if not isinstance(r, Exc) else 'store-' + r.name
+        if k == 'store-issued-abort':
+            # an id is issued, used in a transaction, and the transaction
+            # is aborted: the id stays issued
+            r = call(s.new_oid)
+            if isinstance(r, Exc):
+                return 'error'
+            self.check_new(r, 'new_oid')
+            self._commit(s, [(r, Z64)], abort=True)
+            return 'store-abort'
+        if k == 'aim':
+            pool = sorted(self.issued - set(self.stored)) \
+                if op[1] == 'issued' else sorted(self.stored)
+            pool = [o for o in pool if u64(o) >= 1] or [p64(1)]
+            env.RANDOM.script.insert(0, u64(pool[-1]))
+            return 'aim'
         if k == 'store':
             oid = p64(op[1])
             if self.base is not None and oid in self.base_oids \
